@@ -96,7 +96,7 @@ def prune(interp, cond):
     s.add(z3.Not(cond))
     if s.check() == z3.unsat:
         return True
-    if (interp.state.get("n_loops") or interp.state.get("generic_depth")) and interp.state.get("prune_quantified", True):
+    if (interp.state.get("n_loops") or interp.state.get("generic_depth") or interp.state.get("quantified_facts")) and interp.state.get("prune_quantified", True):
         # after a loop was summarised by its invariant the facts about the heap are quantified (frames, invariants):
         # second attempt with all assumptions and E-matching (an `unsat` is sound whatever the heuristics do)
         qs = z3.Solver()
